@@ -235,7 +235,7 @@ func c19RoundTrip(c *chain.Chain, ctx sdk.Context) (res c19Result) {
 
 func TestC19(t *testing.T) {
 	rec := ev.For("C19")
-	rec.Describe("ABCI histories (the generator of C06: providers, collateral, claimers, plans, gauges, files with provers, open attestation and report forms, names with records / listings / bids / init markers / primary names, file-tree entries and public keys, oracle feeds, notifications and block entries, several minted blocks) are executed on a real app; then the six custom modules are exported with their ExportGenesis, each section validated, a fresh app initialised from a genesis carrying those sections, and compared: sorted raw KV dump of every custom store per key prefix (source vs restored), module params, and the re-exported genesis. Record kinds the genesis protos have no field for are listed in known_findings.json and excluded from the search comparison (counted); any other prefix that fails is a violation. Non-trivial = the source state had records under >= 8 distinct prefixes; distinct = distinct recorded histories.",
+	rec.Describe("ABCI histories (the generator of C06: providers, collateral, claimers, plans, gauges, files with provers, open attestation and report forms, names with records / listings / bids / init markers / primary names, file-tree entries and public keys, oracle feeds, notifications and block entries, several minted blocks) are executed on a real app; then the six custom modules are exported with their ExportGenesis, each section validated, a fresh app initialised from a genesis carrying those sections, and compared: sorted raw KV dump of every custom store per key prefix (source vs restored), module params, and the re-exported genesis. A second search does the same from fork-mode worlds (uncommitted state): name-service histories with height jumps around and beyond expiries (listings and bids left over), and worlds in which owners' resources of all modules are hit by 5-40 reflectively generated messages of all 45 types between block boundaries (mint and storage begin-block). Record kinds the genesis protos have no field for are listed in known_findings.json and excluded from the search comparison (counted); any other prefix that fails is a violation. Non-trivial = the source state had records under >= 8 distinct prefixes; distinct = distinct recorded histories.",
 		"ActiveProviders/value/ is written by InitGenesis and read by nothing (the active-provider list is recomputed from proofs): not compared",
 		"bank/auth state is not carried over (custom InitGenesis functions do not depend on it)")
 	// ---- plain regression replay of the known omissions ----
@@ -301,6 +301,99 @@ func TestC19(t *testing.T) {
 		})
 	})
 	_ = strings.Join
+
+	// ---- fork-mode worlds: states the ABCI histories do not reach (names around and beyond their expiry with
+	// listings and bids left over; arbitrary messages of all 45 types against owners' resources; reward and minted
+	// blocks) are exported from the uncommitted state and imported into a fresh app ----
+	rc := chain.New(rnsGenesis())
+	defer rc.Close()
+	sp := chain.DefaultStorageParams()
+	sp.CollateralPrice = 1000
+	sc := chain.New(chain.GenesisOpts{NumAccounts: 6, Balance: sdk.NewCoins(sdk.NewInt64Coin("ujkl", 1_000_000_000_000)), Storage: &sp})
+	defer sc.Close()
+	urls := customMsgURLs(sc)
+	judge := func(rt *rapid.T, r c19Result, trace []string, id string) {
+		if r.other != "" {
+			failf(rt, rec, "C19/export-import", trace, "%s", r.other)
+		}
+		for _, sp := range c19KnownLoss {
+			if _, failed := r.failures[c19Sig(sp)]; failed && ev.Known(c19Sig(sp)) {
+				delete(r.failures, c19Sig(sp))
+				rec.Exclude(c19Sig(sp))
+			}
+		}
+		if ev.Known(c19Sig(minttypes.StoreKey + ":" + minttypes.LastBlockMinted)) {
+			delete(r.failures, "C19/re-export/jklmint") // the same known omission seen through the second export
+		}
+		for _, s := range sortedKeysOf(r.failures) {
+			failf(rt, rec, s, trace, "%s", r.failures[s])
+		}
+		for p := range r.prefixes {
+			rec.Count("populated:" + p)
+		}
+		rec.Case(len(r.prefixes) >= 4, ev.Hash(id, strings.Join(trace, "\n")), func() interface{} {
+			return map[string]interface{}{"populated_prefixes": sortedStrings(r.prefixes), "history_tail": tail(trace, 15)}
+		})
+	}
+	search(t, rec, "fork-worlds", budget(150, 48000), 40, func(rt *rapid.T) {
+		if rapid.Bool().Draw(rt, "nameServiceWorld") {
+			w := rnsMachine(rt, rc, rnsWeights{bidHeavy: true}, func(*rnsWorld, *rnsStep) *rnsFailure { return nil }, rec)
+			rec.Count("fork-world:name-service")
+			judge(rt, c19RoundTrip(rc, w.f.Ctx), w.trace, "rns")
+			return
+		}
+		w := newStorWorld(sc, 5)
+		accs := make([]chain.Account, 5)
+		for i := range accs {
+			accs[i] = chain.Acc(i)
+		}
+		for i, a := range accs[:3] {
+			w.initProvider(a, fmt.Sprintf("https://o%d.dom%d.com", i, i))
+			w.f.Exec(&storagetypes.MsgAddClaimer{Creator: a.Bech, ClaimAddress: accs[4].Bech})
+			w.f.Exec(&oracletypes.MsgCreateFeed{Creator: a.Bech, Name: fmt.Sprintf("feed%d", i)})
+			w.f.Exec(&oracletypes.MsgUpdateFeed{Creator: a.Bech, Name: fmt.Sprintf("feed%d", i), Data: `{"price":"1"}`})
+			w.f.Exec(rnstypes.NewMsgRegisterName(a.Bech, fmt.Sprintf("owner%d.jkl", i), 1, "{}", i%2 == 0))
+			w.f.Exec(&notiftypes.MsgCreateNotification{Creator: accs[(i+1)%3].Bech, To: a.Bech, Contents: "{}"})
+			w.buyStorage(a, a.Bech, 30, 1_000_000_000, "")
+			f, _ := w.postFile(a, append([]byte{byte(i + 1)}, c02Content(50)...), 2, 0)
+			w.honestProve(accs[(i+1)%3], f)
+			w.f.Exec(fttypes.NewMsgPostKey(a.Bech, fmt.Sprintf("key-of-%d", i)))
+			w.f.Exec(fttypes.NewMsgProvisionFileTree(a.Bech, "{}", "{}", fmt.Sprintf("tn%d", i)))
+		}
+		env := func() *fillEnv {
+			e := &fillEnv{Height: w.f.Height(), Names: []string{"owner0.jkl", "owner1.jkl", "owner2.jkl", "new.jkl", "other.ibc", "feed0", "feed1", "feed9"}}
+			for _, a := range accs {
+				e.Accounts = append(e.Accounts, a.Bech)
+			}
+			for _, f := range w.c.App.StorageKeeper.GetAllFileByMerkle(w.f.Ctx) {
+				e.Merkles = append(e.Merkles, f.Merkle)
+				e.Starts = append(e.Starts, f.Start)
+			}
+			for _, n := range w.c.App.NotificationsKeeper.GetAllNotifications(w.f.Ctx) {
+				e.Starts = append(e.Starts, n.Time)
+			}
+			for _, f := range w.c.App.FileTreeKeeper.GetAllFiles(w.f.Ctx) {
+				e.Strings = append(e.Strings, f.Address, f.Owner)
+			}
+			e.Strings = append(e.Strings, "feed0", "owner0.jkl", "{}")
+			return e
+		}
+		for i, steps := 0, rapid.IntRange(5, 40).Draw(rt, "steps"); i < steps; i++ {
+			m := newMsgOf(sc, urls[rapid.IntRange(0, len(urls)-1).Draw(rt, "type")])
+			fillMsg(rt, m, env(), nil)
+			res := w.f.Exec(m)
+			w.logf("%s -> %s", msgSummary(m), trunc(res.String(), 60))
+			if rapid.IntRange(0, 5).Draw(rt, "tick") == 0 {
+				w.f.SetBlock(w.f.Height()+rapid.Int64Range(1, 120).Draw(rt, "blocks"), w.f.Time().Add(time.Duration(rapid.Int64Range(1, 100000).Draw(rt, "seconds"))*time.Second))
+				if bb := w.f.BeginCustom(true, true); bb.Panic != nil {
+					rt.Skip() // block-processing panics are C05's subject
+				}
+				w.logf("block boundary (mint and storage begin-block)")
+			}
+		}
+		rec.Count("fork-world:all-message-types")
+		judge(rt, c19RoundTrip(sc, w.f.Ctx), w.trace, "all")
+	})
 }
 
 func sortedKeysOf(m map[string]string) []string {
